@@ -47,6 +47,25 @@ func genC13(p *Plan, r *RNG) {
 		p.QuietNS = 20 * sec
 		return
 	}
+	if r.Chance(1, 12) {
+		// the server binds the channel when it receives the request and may relay on it at
+		// once; its success response is slow. ChannelData that arrives before the response
+		// must still come out of ReadFrom with the bound peer's address.
+		p.Flavor = "relay-early-chandata"
+		d := r.PickI64([]int64{300 * ms, 900 * ms, 3 * sec})
+		p.Reactions = append(p.Reactions, Reaction{Method: "chanbind", Txn: 1, Do: "ok", DelayNS: d})
+		p.Ops = append(p.Ops, Op{Actor: "app", Kind: "alloc", At: gap(10 * ms)})
+		p.Ops = append(p.Ops, Op{Actor: "app", Kind: "readfrom", At: gap(300 * ms)})
+		p.Ops = append(p.Ops, Op{Actor: "app0", Kind: "writeto", At: gap(300 * ms), A: OpArgs{Peer: peers[0], Len: r.Range(9, 100)}})
+		// CreatePermission round trip, then the ChannelBind request must have reached the server
+		p.Ops = append(p.Ops, Op{Actor: "srv", Kind: "srv_chandata", At: gap(4*p.Cfg.LatCSns + 20*ms + int64(r.Intn(int(d/2/ms)))*ms), A: OpArgs{Chan: 0x4000, Len: r.Range(9, 100)}})
+		p.Ops = append(p.Ops, Op{Actor: "app", Kind: "readfrom", At: gap(10 * ms)})
+		p.Ops = append(p.Ops, Op{Actor: "app", Kind: "readfrom", At: gap(d + sec)})
+		p.Ops = append(p.Ops, Op{Actor: "srv", Kind: "srv_chandata", At: gap(500 * ms), A: OpArgs{Chan: 0x4000, Len: r.Range(9, 100)}})
+		p.Ops = append(p.Ops, Op{Actor: "app", Kind: "bind_txn", At: gap(2 * sec), A: OpArgs{Flags: []string{"probe"}}})
+		p.QuietNS = 20 * sec
+		return
+	}
 	tcp := r.Chance(1, 6)
 	if tcp {
 		p.Flavor = "relay-tcpalloc"
